@@ -190,7 +190,7 @@ def convert_expr_to_pddl(
     pddl_expression = _convert_internal_expression_to_pddl(
         expr,
         initial_operator,
-        {val: key for key, val in symbolic_vars.items()},
+        {val: key for key, val in (symbolic_vars or {}).items()},
         decimal_digits=decimal_digits,
         should_remove_trailing_zeros=should_remove_trailing_zeros,
     )
